@@ -21,10 +21,14 @@ TMPL = {
          '<include src="/q/c"/><template is="t{name}" data="{{{{alpha, beta}}}}"/>',
     "y": '<wxs module="n" src="./s_{name}"/><v id="{{{{iota}}}}" style="{{{{kappa}}}}" hidden="{{{{lambda}}}}" data:a="{{{{mu}}}}" data:b="{{{{nu}}}}"'
          ' mark:c="{{{{xi}}}}">{{{{omicron}}}}{{{{pi}}}}{{{{rho}}}}</v><slot name="{{{{sigma}}}}" a="{{{{tau}}}}"/>'
-         '<block wx:if="{{{{upsilon}}}}"><u>{{{{phi}}}}</u></block><block wx:else>{{{{chi}}}}{{{{n.f(psi)}}}}</block>',
+         '<block wx:if="{{{{upsilon}}}}"><u>{{{{phi}}}}</u></block><block wx:else>{{{{chi}}}}{{{{n.f(psi)}}}}</block>'
+         # names that differ from names of content z in letter case only (slot attributes and model: names keep their case):
+         # what one file's names become must not depend on which spelling the process met first
+         '<slot name="s2" itemData="{{{{tau}}}}" row-Index="{{{{mu}}}}"/><input model:Value="{{{{nu}}}}" data:Key="{{{{xi}}}}"/>',
     # no script module at all: whether the script runtime is emitted must not depend on which file came last
     "z": '<v id="{{{{aa}}}}" class="{{{{bb}}}}">{{{{cc}}}}</v><block wx:for="{{{{dd}}}}"><w>{{{{item}}}}{{{{ee}}}}</w></block>'
          '<template name="u{name}"><v a="{{{{ff}}}}"/></template><template is="u{name}" data="{{{{ff: gg}}}}"/>'
+         '<slot itemdata="{{{{aa}}}}" row-index="{{{{bb}}}}"/><input model:value="{{{{cc}}}}" data:key="{{{{dd}}}}"/>'
          # several slot values on the children of one parent: their order in the emitted declarations must be fixed
          '<comp><view slot:item slot:index slot:first slot:last class="{{{{first ? hh : ii}}}}">{{{{index}}}}: {{{{item.n}}}} {{{{last ? jj : kk}}}}</view>'
          '<text slot:alpha slot:beta slot:gamma="g2">{{{{alpha}}}}{{{{beta}}}}{{{{g2}}}}</text></comp>',
